@@ -167,9 +167,16 @@ theorem fresh_link_unnumbered (d : Str) (cap : Option Str) : (freshLink d cap).l
 /-- **A block whose Path does not start with `./` adds a new entry** and leaves every
     directory entry as it was. -/
 theorem adds_new (l : LinkEntry) (ls : List LinkEntry) (es : List (Nat × Str × Option Entry))
-    (h : l.needsmerge = false) :
+    (h : l.needsmerge = false) (nm : Str) (hn : l.e.name = some nm) :
     mergeLinks (l :: ls) es = mergeLinks ls (es ++ [(es.length, [], some l.e)]) := by
-  simp [mergeLinks, h]
+  simp [mergeLinks, h, hn]
+
+/-- a block that names nothing adds nothing (any subset of the lines is a well-formed block: one
+    without `Name=` cannot be listed, and the listing goes on without it) -/
+theorem nameless_block_adds_nothing (l : LinkEntry) (ls : List LinkEntry) (es : List (Nat × Str × Option Entry))
+    (h : l.needsmerge = false) (hn : l.e.name = none) :
+    mergeLinks (l :: ls) es = mergeLinks ls es := by
+  simp [mergeLinks, h, hn]
 
 /-- **No arrangement of link blocks can fail the merge**: whatever the blocks say — two blocks
     hiding the same file, a block for a file that is already hidden, blocks for files that do
@@ -181,7 +188,9 @@ theorem merge_total (ls : List LinkEntry) : ∀ es : List (Nat × Str × Option 
     intro es
     unfold mergeLinks
     split
-    · exact ih _
+    · split
+      · exact ih _
+      · exact ih _
     · split
       · split
         · exact ih _
@@ -190,13 +199,27 @@ theorem merge_total (ls : List LinkEntry) : ∀ es : List (Nat × Str × Option 
         · exact ih _
         · exact ih _
 
-/-- a hide block (`Type=X`, `./` path) for a file that is not among the directory's entries
-    changes nothing: the listing is the one without the block -/
+/-- a hide block (`Type=X` or `Type=-`, `./` path) for a file that is not among the directory's
+    entries changes nothing: the listing is the one without the block -/
 theorem hide_absent_is_noop (l : LinkEntry) (ls : List LinkEntry) (es : List (Nat × Str × Option Entry))
-    (hm : l.needsmerge = true) (hx : l.e.type = some (lit "X"))
+    (hm : l.needsmerge = true) (hx : l.e.type = some (lit "X") ∨ l.e.type = some (lit "-"))
     (habs : es.reverse.find? (fun x => x.2.1 == l.e.selector && !x.2.1.isEmpty) = none) :
     mergeLinks (l :: ls) es = mergeLinks ls es := by
-  simp [mergeLinks, hm, habs, hx]
+  have hh : l.hides = true := by
+    unfold LinkEntry.hides
+    rcases hx with hx | hx <;> simp [hx]
+  simp [mergeLinks, hm, habs, hh]
+
+/-- **`Type=X` or `Type=-` in a `./` block hides the file**: the entry with that selector is
+    taken out, every other entry stays as it is -/
+theorem block_hides (l : LinkEntry) (ls : List LinkEntry) (es : List (Nat × Str × Option Entry)) (i : Nat) (t : Str) (o : Option Entry)
+    (hm : l.needsmerge = true) (hx : l.e.type = some (lit "X") ∨ l.e.type = some (lit "-"))
+    (hf : es.reverse.find? (fun x => x.2.1 == l.e.selector && !x.2.1.isEmpty) = some (i, t, o)) :
+    mergeLinks (l :: ls) es = mergeLinks ls (es.map fun x => if x.1 == i then (x.1, x.2.1, none) else x) := by
+  have hh : l.hides = true := by
+    unfold LinkEntry.hides
+    rcases hx with hx | hx <;> simp [hx]
+  simp [mergeLinks, hm, hf, hh]
 
 /-- hiding marks exactly the entry with the given tag and leaves the others as they are;
     hiding it again changes nothing -/
